@@ -37,6 +37,7 @@ type World struct {
 	Files    map[string]bool // source files of functions executed (for evidence)
 	fmu      sync.Mutex
 	Funcs    map[string]bool
+	Tier     int // 0 quick, 1 thorough
 }
 
 type nilIntercept struct{}
